@@ -22,7 +22,7 @@ func init() {
 		Explanation: "Narrow structural claim for C17: (1) every registered generator configuration (the repository's own regression configs plus /verif probe overlays, " +
 			"regenerated from the current templates by the repository's own generator driver built from the snapshot) generates without error/panic and every emitted package " +
 			"type-checks with go/types against the current runtime packages; (2) the literal table consulted by sanitizeKeywords is a superset of go/token's keyword set; (3) the model-name registry records every name it hands out in every map its collision test reads; (4) an import alias is stored only after the alias finder found nothing for that very alias. " +
-			"The generator run decides nothing about behaviour; the verdict is the static type-check of its output.",
+			"The generator run decides nothing about behaviour; the verdict is the static type-check of its output. (5) in the follow-schema resolver generator every *File is filed under a key computed from its own output name.",
 		NotDecided: "all other schemas and configs; collision-freedom of generated identifiers in general; generating from random schemas would be dynamic testing and is out of family",
 		Assumptions: []string{
 			"the registered configuration set stands for 'every supported schema and config' only as far as the templates' branches it materialises (reported in coverage.materialised)",
